@@ -66,5 +66,6 @@ fn main() {
             }
         }
     }
-    println!("{}", json!({"behaviours": n, "nontrivial": nontrivial, "failed": bad, "by_prop": by_prop, "failures": failures, "samples": samples}));
+    println!("{}", json!({"behaviours": n, "nontrivial": nontrivial, "failed": bad, "by_prop": by_prop, "failures": failures, "samples": samples,
+        "misaligned": verif_harness::session::MISALIGNED.with(|c| c.get())}));
 }
